@@ -271,6 +271,21 @@ def note_off_removes_one(ctx, fi):
     if isinstance(st, ast.Assign) and ((isinstance(st.value, (ast.List, ast.Tuple)) and not st.value.elts) or
                                        (isinstance(st.value, ast.Call) and dotted(st.value.func) in ('list', 'dict', 'set') and not st.value.args)):
       drops += [t for t in st.targets if isinstance(t, ast.Subscript) and isinstance(t.value, ast.Name) and t.value.id in tracked]
+    # filtering the entry by a *field* of the ending note (its pitch) removes every note that shares the field value
+    if isinstance(st, ast.Assign) and isinstance(st.value, (ast.ListComp, ast.GeneratorExp)) or (
+        isinstance(st, ast.Assign) and isinstance(st.value, ast.Call) and st.value.args and isinstance(st.value.args[0], (ast.ListComp, ast.GeneratorExp))):
+      comp = st.value if isinstance(st.value, (ast.ListComp, ast.GeneratorExp)) else st.value.args[0]
+      if any(isinstance(t, ast.Subscript) and isinstance(t.value, ast.Name) and t.value.id in tracked for t in st.targets) and isinstance(comp.generators[0].target, ast.Name):
+        el = comp.generators[0].target.id
+        for f_ in comp.generators[0].ifs:
+          for c in ast.walk(f_):
+            if isinstance(c, ast.Compare) and len(c.ops) == 1:
+              a_, b_ = c.left, c.comparators[0]
+              if all(isinstance(x, ast.Attribute) for x in (a_, b_)) and {norm_text(a_.value), norm_text(b_.value)} == {el, ev} and a_.attr == b_.attr:
+                n += 1
+                ctx.ob('BRANCH/note-off-removes-one', fi, st, False, 'at a note end, the entry of %s is filtered by %s: every tracked note with the same %s stops being tracked, not only the '
+                       'one that ends - note starts are processed before note ends at one instant, so a same-%s note starting exactly there is dropped with it and is not held by a pedal '
+                       'pressed later' % (sorted(tracked)[0], norm_text(c), a_.attr, a_.attr), construct='a note end removes exactly that note', definite=True)
     for d in drops:
       n += 1
       ctx.ob('BRANCH/note-off-removes-one', fi, d, False, 'at a note end, %s drops the whole entry of %s: every note filed under that key stops being tracked, not only the one that '
